@@ -452,6 +452,8 @@ class Frame:
         return m(e)
 
     def e_Constant(self, e):
+        if isinstance(e.value, bytes):
+            return list(e.value)  # byte strings are lists of ints in this interpreter
         return e.value
 
     def e_Name(self, e):
